@@ -82,6 +82,9 @@ def run_shard(ctx):
                     z = z.upper()
                 elif form == 'roundtrip':
                     back = rng.choice(['as unix', 'to unix', 'as unixtime', 'unix', 'to unixtimestamp'])
+                    if rng.random() < 0.1:
+                        # the inverse law needs no calendar: also instants behind the year 9999 (the calculator reads and prints such years)
+                        n = rng.choice([253402300800, 316516204800, 1664582400123, 8210266876799, rng.randint(253402300800, 8 * 10**12)])
                     if rng.random() < 0.4:
                         # both conversions on one line
                         text = '%d to %s %s' % (n, rng.choice(['date', 'date', gen_zone(rng, zones)[0]]), back)
